@@ -2,13 +2,18 @@
    Statements only; every proof is [exact <lemma of C16/Proofs.v>]. *)
 From Kit Require Import C16.Model C16.Spec C16.Check C16.Proofs.
 
-(* LimitReadCloser on the current tree: for EVERY limit, script (chunking, zero-length reads,
-   data-with-EOF, mid-stream failure) and EVERY sequence of positive consumer buffer sizes, the
-   read loop ends with an error value and (bytes, error, closes after Close) meet the spec:
+(* LimitReadCloser on the current tree: for EVERY limit, script (chunking, zero-length reads at
+   any offset, data-with-EOF, mid-stream failure), EVERY sequence of positive consumer buffer
+   sizes (the type has only Read and Close, so every consumption path of the io package - Read
+   loops, io.ReadAll, io.Copy, io.CopyBuffer, io.CopyN, a destination's ReadFrom - is such a
+   sequence) and ANY number k >= 1 of Close calls afterwards, the read loop ends with an error
+   value and (bytes, error, closes before Close, closes after the last Close) meet the spec:
    source unchanged + EOF when it has at most n bytes; exactly the first n bytes +
-   ErrStreamTooLarge when it is longer; source closed exactly once. *)
-Theorem C16_limit_spec : forall n s c, consumer_pos c ->
-  exists out e cb ca, limit_run Fixed n s c = (out, Some e, cb, ca) /\ limit_spec n s out e ca.
+   ErrStreamTooLarge, the source already closed by the limiter, when it is longer; source closed
+   exactly once in the end. *)
+Theorem C16_limit_spec : forall n s c k, consumer_pos c -> 1 <= k ->
+  exists out e cb ca, limit_run Fixed n s c k = (out, Some e, cb, ca) /\
+                      limit_spec n s out e cb ca.
 Proof. exact limit_run_spec. Qed.
 Print Assumptions C16_limit_spec.
 
@@ -16,41 +21,45 @@ Print Assumptions C16_limit_spec.
    ends in a clean EOF. *)
 Theorem C16_limit_over_refuted : exists n s c, consumer_pos c /\
   (Z.of_nat (length (data_of s)) > n)%Z /\
-  exists out cb ca, limit_run Original n s c = (out, Some EEOF, cb, ca).
+  exists out cb ca, limit_run Original n s c 1 = (out, Some EEOF, cb, ca).
 Proof. exact limit_over_refuted. Qed.
 Print Assumptions C16_limit_over_refuted.
 
 (* MultiReaderCloser through Read (both variants): concatenation, EOF only after the last
-   source, every closable source closed exactly once after Close. *)
-Theorem C16_multi_read_spec : forall v srcs c, consumer_pos c ->
-  exists out e cb ca, multi_run v srcs (Some c) = (out, Some e, cb, ca) /\
+   source, every closable source closed exactly once after any number k >= 1 of Close calls. *)
+Theorem C16_multi_read_spec : forall v srcs c k, consumer_pos c -> 1 <= k ->
+  exists out e cb ca, multi_run v srcs (ViaRead c) k = (out, Some e, cb, ca) /\
                       multi_spec srcs out e ca.
 Proof. exact multi_read_spec. Qed.
 Print Assumptions C16_multi_read_spec.
 
-(* ... and through WriteTo (io.Copy) on the current tree. *)
-Theorem C16_multi_writeto_spec : forall srcs,
-  exists out e cb ca, multi_run Fixed srcs None = (out, Some e, cb, ca) /\
+(* ... and through WriteTo (io.Copy, io.CopyBuffer) on the current tree, whatever buffer sizes
+   the per-source copies read with (WriteTo's own 32 KiB buffer, or the choices of a
+   destination that is an io.ReaderFrom). *)
+Theorem C16_multi_writeto_spec : forall srcs c k, consumer_pos c -> 1 <= k ->
+  exists out e cb ca, multi_run Fixed srcs (ViaWriteTo c) k = (out, Some e, cb, ca) /\
                       multi_spec srcs out e ca.
 Proof. exact multi_writeto_spec. Qed.
 Print Assumptions C16_multi_writeto_spec.
 
 (* The code before the fix never closed a source on the WriteTo path. *)
 Theorem C16_multi_writeto_refuted : exists srcs out e cb ca,
-  multi_run Original srcs None = (out, Some e, cb, ca) /\ ca <> expected_closes srcs.
+  multi_run Original srcs (ViaWriteTo copy_consumer) 1 = (out, Some e, cb, ca) /\
+  ca <> expected_closes srcs.
 Proof. exact multi_writeto_refuted. Qed.
 Print Assumptions C16_multi_writeto_refuted.
 
 (* TeeReadCloser: delivered = written = a prefix of the source data, all of it unless the
-   writer failed; source and writer closed once by Close. *)
-Theorem C16_tee_spec : forall s b c, consumer_pos c ->
-  exists out e w sc wc, tee_run s b c = (out, Some e, w, sc, wc) /\ tee_spec s b out e w sc wc.
+   writer failed; source and writer closed once by any number k >= 1 of Close calls. *)
+Theorem C16_tee_spec : forall s b c k, consumer_pos c -> 1 <= k ->
+  exists out e w sc wc, tee_run s b c k = (out, Some e, w, sc, wc) /\
+                        tee_spec s b out e w sc wc.
 Proof. exact tee_run_spec. Qed.
 Print Assumptions C16_tee_spec.
 
 (* The boolean oracles evaluated on the implementation's observations decide the specs. *)
-Theorem C16_limit_oracle_sound : forall n s out e ca,
-  limit_oracle n s out e ca = true <-> limit_spec n s out e ca.
+Theorem C16_limit_oracle_sound : forall n s out e cb ca,
+  limit_oracle n s out e cb ca = true <-> limit_spec n s out e cb ca.
 Proof. exact limit_oracle_sound. Qed.
 Print Assumptions C16_limit_oracle_sound.
 
